@@ -470,6 +470,8 @@ class Body:
             return ("const", o["float"])
         if "str" in o:
             return ("const", o["str"])
+        if o.get("ty") == "&str" and isinstance(o.get("tyconst"), str) and o["tyconst"].startswith('"'):
+            return ("const", const_str(o))
         if "enum_variant" in o:
             # promoted `&Enum::Variant`
             return ("ref", ("agg", norm(o["enum_adt"]) + "::" + o["enum_variant"], ()))
@@ -828,4 +830,15 @@ def cmp_op(e):
         m = re.search(r"(PartialEq|PartialOrd)(<[^>]*>)?>?::(eq|ne|lt|le|gt|ge)$", e[1])
         if m:
             return m.group(3).capitalize(), e[2][0], e[2][1]
+    return None
+
+
+def const_str(o):
+    """String value of a &str constant operand (either an evaluated slice or a type-level valtree literal)."""
+    if "str" in o:
+        return o["str"]
+    tc = o.get("tyconst")
+    if o.get("ty") == "&str" and isinstance(tc, str) and len(tc) >= 2 and tc[0] == '"' and tc[-1] == '"':
+        body = tc[1:-1]
+        return body.replace('\\"', '"').replace("\\n", "\n").replace("\\t", "\t").replace("\\\\", "\\")
     return None
